@@ -19,6 +19,7 @@ import (
 	"sort"
 	"strings"
 	"sync"
+	"syscall"
 	"time"
 
 	"github.com/mutagen-io/mutagen/pkg/synchronization"
@@ -41,6 +42,7 @@ type Plan struct {
 	Kind      string `json:"k"`
 	Stream    string `json:"s"`
 	PreStream string `json:"pre,omitempty"`
+	Exec      bool   `json:"x,omitempty"` // the planned entry is executable
 }
 
 // Edit is an external modification of the root: Content nil = remove.
@@ -51,6 +53,11 @@ type Edit struct {
 
 // Case is one scenario.
 type Case struct {
+	// XDev: the root is placed on another device than the staging directory
+	// and the Transition's context is cancelled as soon as the cross-device
+	// copy of the (huge) planned file has begun.
+	XDev          bool              `json:"xdev,omitempty"`
+	InitExec      map[string]bool   `json:"init_exec,omitempty"`
 	Init          map[string]string `json:"init"`
 	MaxSize       uint64            `json:"maxsize,omitempty"`
 	Plans         []Plan            `json:"plans"`
@@ -65,6 +72,7 @@ type Case struct {
 }
 
 type result struct {
+	skip  string
 	coq   string
 	nt    bool
 	tags  []string
@@ -92,7 +100,23 @@ func bigContent(tag string) string {
 	return sb.String()[:2100]
 }
 
+var (
+	hugeMu    sync.Mutex
+	hugeCache = map[string]string{}
+)
+
 func expand(c string) string {
+	if strings.HasPrefix(c, "HUGE:") { // 40 MiB: more than one preemption interval (32 MiB) of the cross-device copy
+		hugeMu.Lock()
+		defer hugeMu.Unlock()
+		if v, ok := hugeCache[c]; ok {
+			return v
+		}
+		b := make([]byte, 40<<20)
+		copy(b, c)
+		hugeCache[c] = string(b)
+		return hugeCache[c]
+	}
 	if strings.HasPrefix(c, "BIG:") {
 		return bigContent(c[4:])
 	}
@@ -103,6 +127,10 @@ func expand(c string) string {
 }
 
 func writeFile(root, rel string, content []byte, tmpdir string) {
+	writeFileMode(root, rel, content, tmpdir, 0o644)
+}
+
+func writeFileMode(root, rel string, content []byte, tmpdir string, mode os.FileMode) {
 	full := filepath.Join(root, filepath.FromSlash(rel))
 	if err := os.MkdirAll(filepath.Dir(full), 0o755); err != nil {
 		return
@@ -114,9 +142,19 @@ func writeFile(root, rel string, content []byte, tmpdir string) {
 	if err != nil {
 		panic(err)
 	}
-	tmp.Write(content)
+	if len(content) > 1<<20 {
+		// huge contents are a short header followed by zeros: write them sparsely
+		end := len(content)
+		for end > 0 && content[end-1] == 0 {
+			end--
+		}
+		tmp.Write(content[:end])
+		tmp.Truncate(int64(len(content)))
+	} else {
+		tmp.Write(content)
+	}
 	tmp.Close()
-	os.Chmod(tmp.Name(), 0o644)
+	os.Chmod(tmp.Name(), mode)
 	if err := os.Rename(tmp.Name(), full); err != nil {
 		os.Remove(tmp.Name())
 	}
@@ -205,6 +243,30 @@ func streamFor(mode string, target []byte, base []byte, sig *rsync.Signature) []
 	return append(chunks(target), tx{done: true})
 }
 
+// cname prints a content: literally, or (huge contents) by a short symbolic
+// name that is injective through the SHA-1 digest and the length.
+func cname(b []byte) string {
+	if len(b) <= 8192 {
+		return string(b)
+	}
+	return fmt.Sprintf("HUGE:%x:%d", lepx.Sha1(b)[:8], len(b))
+}
+
+func otherDevice(than string) string {
+	var a, b syscall.Stat_t
+	if syscall.Stat(than, &a) != nil {
+		return ""
+	}
+	for _, cand := range []string{"/tmp", "/var/tmp", "/verif/.work", "."} {
+		if syscall.Stat(cand, &b) == nil && b.Dev != a.Dev {
+			if d, err := os.MkdirTemp(cand, "verif-xdev-"); err == nil {
+				return d
+			}
+		}
+	}
+	return ""
+}
+
 func optStr(s *string) string {
 	if s == nil {
 		return "None"
@@ -215,7 +277,7 @@ func optStr(s *string) string {
 func coqFiles(d lepx.Disk) string {
 	items := make([]string, 0, len(d.Files))
 	for _, p := range d.Paths() {
-		items = append(items, fmt.Sprintf("(%s, %s)", coretree.Str(p), coretree.Str(string(d.Files[p]))))
+		items = append(items, fmt.Sprintf("(%s, %s)", coretree.Str(p), coretree.Str(cname(d.Files[p]))))
 	}
 	return hx.List(items)
 }
@@ -226,21 +288,46 @@ func runCase(c Case) (res result) {
 			res.panic = fmt.Sprint(r)
 		}
 	}()
+	t00 := time.Now()
+	dbg := func(what string) {
+		if os.Getenv("VERIF_DEBUG") != "" {
+			fmt.Fprintf(os.Stderr, "%6dms %s\n", time.Since(t00).Milliseconds(), what)
+		}
+	}
 	ids := lepx.NewIds()
-	known := map[string]bool{} // contents for the hash table
-	note := func(b []byte) { known[string(b)] = true }
+	known := map[string]string{} // printed content -> digest identifier: the hash table
+	note := func(b []byte) {
+		k := cname(b)
+		if _, ok := known[k]; !ok {
+			known[k] = ids.Content(b)
+		}
+	}
 	note(nil)
 	session := nextSession()
 	base := scratch.Dir(session)
 	defer os.RemoveAll(base)
 	root := filepath.Join(base, "root")
 	tmpdir := filepath.Join(base, "tmp")
+	if c.XDev {
+		other := otherDevice(base)
+		if other == "" {
+			res.skip = "no second filesystem"
+			return
+		}
+		defer os.RemoveAll(other)
+		root = filepath.Join(other, "root")
+		tmpdir = filepath.Join(other, "tmp")
+	}
 	os.MkdirAll(root, 0o755)
 	os.MkdirAll(tmpdir, 0o755)
 	init := map[string][]byte{}
 	for p, content := range c.Init {
 		init[p] = []byte(expand(content))
-		writeFile(root, p, init[p], tmpdir)
+		mode := os.FileMode(0o644)
+		if c.InitExec[p] {
+			mode = 0o755
+		}
+		writeFileMode(root, p, init[p], tmpdir, mode)
 		note(init[p])
 	}
 	cfg := &synchronization.Configuration{
@@ -280,7 +367,9 @@ func runCase(c Case) (res result) {
 		scanRoot = d.Files
 		return s
 	}
+	dbg("init written")
 	snapshot := doScan()
+	dbg("scanned")
 
 	applyEdits := func(es []Edit) {
 		for _, e := range es {
@@ -425,6 +514,7 @@ func runCase(c Case) (res result) {
 	}
 	applyEdits(c.EditsStage)
 	round(func(p Plan) string { return p.Stream }, c.AbortAt, c.Finalize, c.Swap, c.ExtraAtEnd)
+	dbg("staged")
 	applyEdits(c.EditsTrans)
 
 	// the transition
@@ -439,7 +529,7 @@ func runCase(c Case) (res result) {
 	for i, pl := range c.Plans {
 		content := []byte(expand(pl.Content))
 		d := lepx.Sha1(content)
-		entry := &core.Entry{Kind: core.EntryKind_File, Digest: d}
+		entry := &core.Entry{Kind: core.EntryKind_File, Digest: d, Executable: pl.Exec}
 		old := "None"
 		switch pl.Kind {
 		case "dir":
@@ -468,7 +558,34 @@ func runCase(c Case) (res result) {
 		items = append(items, fmt.Sprintf("It %s %s %s", coretree.Str(pl.Path), coretree.Str(ids.Content(content)), old))
 	}
 	before := lepx.Walk(root)
-	results, problems, missing, err := ep.Transition(ctx, changes)
+	dbg("walked before")
+	tctx, tcancel := context.WithCancel(ctx)
+	stopWatch := make(chan struct{})
+	if c.XDev {
+		// cancel as soon as the cross-device copy has created its temporary file
+		go func() {
+			for {
+				select {
+				case <-stopWatch:
+					return
+				default:
+				}
+				if ents, err := os.ReadDir(root); err == nil {
+					for _, e := range ents {
+						if strings.HasPrefix(e.Name(), ".mutagen-temporary-cross-device-rename") {
+							tcancel()
+							return
+						}
+					}
+				}
+				time.Sleep(50 * time.Microsecond)
+			}
+		}()
+	}
+	results, problems, missing, err := ep.Transition(tctx, changes)
+	close(stopWatch)
+	tcancel()
+	dbg("transitioned")
 	if err != nil {
 		panic("Transition: " + err.Error())
 	}
@@ -502,7 +619,20 @@ func runCase(c Case) (res result) {
 	for _, b := range after.Files {
 		note(b)
 	}
-	hops = append(hops, fmt.Sprintf("HTrans %s %s %s %s %v %d", hx.List(items), coqFiles(before), coqFiles(after),
+	// a cancellation that took effect during the cross-device copy is a
+	// fault of the rename step: the staged file was there, nothing is installed
+	faults := make([]string, len(c.Plans))
+	for i := range faults {
+		faults[i] = "FNone"
+		if c.XDev && installed[i] == "false" && !missing {
+			faults[i] = "FRename"
+			tags = append(tags, "xdev:preempted")
+		}
+	}
+	if c.XDev {
+		tags = append(tags, "xdev")
+	}
+	hops = append(hops, fmt.Sprintf("HTransF %s %s %s %s %s %v %d", hx.List(items), hx.List(faults), coqFiles(before), coqFiles(after),
 		hx.List(installed), missing, len(problems)))
 	if missing {
 		tags = append(tags, "missing")
@@ -514,6 +644,7 @@ func runCase(c Case) (res result) {
 		tags = append(tags, "problems")
 	}
 
+	dbg("hops done")
 	// the hash table
 	keys := make([]string, 0, len(known))
 	for k := range known {
@@ -522,7 +653,7 @@ func runCase(c Case) (res result) {
 	sort.Strings(keys)
 	tab := make([]string, len(keys))
 	for i, k := range keys {
-		tab[i] = fmt.Sprintf("(%s, %s)", coretree.Str(k), coretree.Str(ids.Content([]byte(k))))
+		tab[i] = fmt.Sprintf("(%s, %s)", coretree.Str(k), coretree.Str(known[k]))
 	}
 	mx := "None"
 	if c.MaxSize != 0 {
@@ -542,7 +673,7 @@ var streams = []string{"ok", "ok", "ok", "ok", "corrupt", "truncate", "nodone", 
 	"block", "blocksplit", "blockbad", "blockover"}
 
 func genCase(r interface{ Intn(int) int }) Case {
-	c := Case{Init: map[string]string{}, Finalize: r.Intn(6) != 0}
+	c := Case{Init: map[string]string{}, InitExec: map[string]bool{}, Finalize: r.Intn(6) != 0}
 	big := r.Intn(10) == 0
 	// initial root: some files in the root directory and in d/
 	initPaths := []string{"a", "b", "d/x", "d/y"}
@@ -614,6 +745,18 @@ func genCase(r interface{ Intn(int) int }) Case {
 		}
 		if r.Intn(5) == 0 {
 			pl.PreStream = []string{"ok", "ok", "corrupt", "nodone"}[r.Intn(4)]
+		}
+		// executability: a replaced file often changes content AND the bit
+		if pl.Kind == "replace" {
+			if r.Intn(3) == 0 {
+				c.InitExec[pl.Path] = true
+			}
+			pl.Exec = c.InitExec[pl.Path]
+			if r.Intn(3) == 0 {
+				pl.Exec = !pl.Exec
+			}
+		} else if r.Intn(6) == 0 {
+			pl.Exec = true
 		}
 		c.Plans = append(c.Plans, pl)
 	}
@@ -693,8 +836,13 @@ func main() {
 	defer scratch.Remove()
 	w := hx.NewWriter(cfg, header, "scase", "staging_failures", 150)
 	w.Rule = "a case = (SHA-1 table of every content written or found, maximum staging file size, initial root, history: external edits, Stage, each transmission fed to the real receiver with its result, finalization, Transition with the independently re-read root before and after); distinct = distinct Coq terms; non-trivial = at least one planned file installed and at least one not installed (missing files or a problem)"
+	skipped := map[string]int{}
 	emit := func(c Case, origin string, r result) {
 		if w.Aborted {
+			return
+		}
+		if r.skip != "" && r.panic == "" {
+			skipped[r.skip]++
 			return
 		}
 		if w.Guard(c, 5*time.Second, func() {
@@ -753,6 +901,18 @@ func main() {
 		}
 	}
 	runAll(corpus, "corpus")
+	// cross-device relocation of a huge file with the context cancelled mid-copy
+	nx := 3
+	if cfg.Thorough() {
+		nx = 12
+	}
+	xdev := make([]Case, nx)
+	for i := range xdev {
+		tag := fmt.Sprintf("HUGE:%d", i)
+		xdev[i] = Case{XDev: true, Finalize: true, Init: map[string]string{"bigsrc": tag, "a": "small"},
+			Plans: []Plan{{Path: "bigdst", Content: tag, Kind: "create", Stream: "ok"}}}
+	}
+	runAll(xdev, "xdev")
 	n := 1800
 	if cfg.Thorough() {
 		n = 30000
@@ -769,6 +929,7 @@ func main() {
 		runAll(batch, "random")
 		done += k
 	}
+	w.Extra["skipped"] = skipped
 	w.Close()
-	fmt.Printf("cases %d\n", w.Total())
+	fmt.Printf("cases %d skipped %v\n", w.Total(), skipped)
 }
